@@ -712,7 +712,7 @@ pub fn grid() -> Vec<Scn> {
         g.push(Scn { kind: "block-eof(packet input)".into(), cut: "between-emptiness-and-liveness-read".into(), b, need: 0, k, offset: 0 });
     }
     // MTGraph: `need` = number of liveness reads of the middle thread to let pass first
-    for &(b, k) in &[(0usize, 10usize), (100, 1), (500, 524), (1000, 24), (10, 0)] {
+    for &(b, k) in &[(0usize, 10usize), (100, 1), (500, 524), (1000, 24), (10, 3)] {
         for skip in [0usize, 1, 2] {
             g.push(Scn { kind: "MTGraph".into(), cut: "middle-thread-at-liveness-read".into(), b, need: skip, k, offset: 0 });
         }
@@ -752,8 +752,11 @@ pub fn main(opts: &Opts) -> Report {
                 }
             };
             if let Some(why) = vd.inconclusive {
+                // The hand-shake did not complete (e.g. the thread got past the park
+                // site before the rule was armed on a loaded machine): this scenario
+                // says nothing. It is counted; the check needs enough confirmed ones.
                 rep.count("scripts_inconclusive", 1);
-                rep.inconclusive(format!("{why}: {}", s.to_json()));
+                rep.abandoned(format!("{why}: {}", s.to_json()));
                 continue;
             }
             if vd.confirmed {
